@@ -195,7 +195,8 @@ def body_E2(ctx):
 
     err = FErr("from f")
 
-    def f(x, y=0):
+    def f(x, y=0, **kw):
+        ctx.check(kw == {"f": "kw-f", "self": "kw-self", "action": 1}, "keyword arguments arrived as %r", kw)
         ran.append((x, y))
         if raises:
             raise err
@@ -211,7 +212,7 @@ def body_E2(ctx):
     def mk(i):
         def work():
             try:
-                outcomes[i] = ("returned", g(i, y=i + 10))
+                outcomes[i] = ("returned", g(i, y=i + 10, f="kw-f", self="kw-self", action=1))
             except TooManyCalls as e:
                 outcomes[i] = ("too-many", e)
             except FErr as e:
